@@ -48,6 +48,9 @@ def run(ctx):
     # early-return keys on), so the verdict does not depend on which of two conditions comes first: shared with C03.6
     from . import c03
     c03.c03_6(ctx, R="C06.2")
+    # the signature check consumes the collected pairs as a multiset (no adjacent-only dedup, no order-sensitive filter): shared with C05.5
+    from . import c05
+    c05.c05_5(ctx, R="C06.2")
 
 
 def c06_1(ctx):
